@@ -1,6 +1,19 @@
 // C14 harness: tetl bit / integer utilities vs libstdc++ <bit>/<numeric>/<utility> and exact __int128
 // reference arithmetic, on the same case lines as the Lean driver (lean/Tetl/C14/Driver.lean).
 //   <op> t=<type> [u=<type>] a=<int>|as=[..] [b=<int>|bs=[..]]
+//   midpoint_ptr t=i64 n=<len> a=<index> b=<index>|bs=[..]      (pointer overload; pointers/result as indices)
+// Types: the ten builtin integer types (u8 u16 u32 u64 ull i8 i16 i32 i64 ll) for everything, and the character
+// types ch = char, wch = wchar_t, ch8 = char8_t, ch16 = char16_t, ch32 = char32_t for the functions whose
+// constraint is `integral` / `is_integral_v` (byteswap, abs<T>, ilog2, ipow, ipow<2>, idiv, midpoint, gcd, lcm);
+// every one of them compiles with tetl AND with the libstdc++ reference, so no `*` is needed.  `bool` is not
+// instantiated: ilog2<bool> does not compile (`++result`), midpoint/lcm exclude it, and a conversion to bool is
+// not the modular conversion of the model.  The functions constrained by `builtin_integer` /
+// `builtin_unsigned_integer` (<bit>, add_sat, div_sat, saturate_cast, cmp_*, in_range) reject the character
+// types, so they are not compiled for them.
+// The harness is built WITHOUT TETL_ENABLE_CONTRACT_CHECKS: `TETL_PRECONDITION` expands to nothing, so a failing
+// precondition (e.g. test_bit with pos >= digits, in particular pos >= 2^31) cannot be observed here — the call
+// would just run into the undefined shift.  Such positions are therefore not accepted below (bad-op); the failing
+// side of these preconditions is driven by the C05 harness (contract-check builds, forked children).
 // Values are parsed from the raw text (the shared proto parser is limited to long long).
 #include "proto.hpp"
 
@@ -74,6 +87,10 @@ static W clampT(W v)
 }
 static std::string fb(bool b) { return b ? "1" : "0"; }
 
+template <typename T>
+inline constexpr bool is_char_type = std::is_same_v<T, char> || std::is_same_v<T, wchar_t> || std::is_same_v<T, char8_t>
+                                  || std::is_same_v<T, char16_t> || std::is_same_v<T, char32_t>;
+
 struct Res {
     std::string impl, ref;
     bool ok = true;
@@ -87,7 +104,7 @@ template <typename T>
 static Res eval1(std::string const& op, W a, bool has_b, W b)
 {
     using L = std::numeric_limits<T>;
-    if constexpr (std::is_unsigned_v<T>) {
+    if constexpr (std::is_unsigned_v<T> && !is_char_type<T>) {
         if (fits<T>(a)) {
             T const x = static_cast<T>(a);
             constexpr int D = L::digits;
@@ -134,7 +151,9 @@ static Res eval1(std::string const& op, W a, bool has_b, W b)
                 bool const bitop = op == "test_bit" || op == "set_bit" || op == "reset_bit" || op == "flip_bit"
                                 || op == "set_bit_1" || op == "set_bit_0";
                 if (bitop) {
-                    if (b < 0 || b >= D) return bad(); // outside the documented domain: never generated
+                    // pos >= digits fails TETL_PRECONDITION(pos < static_cast<UInt>(digits)); the macro is empty in
+                    // this build (see the head of the file), so the failing side is not observable: never generated
+                    if (b < 0 || b >= D) return bad();
                     T const p  = static_cast<T>(b);
                     UW const m = UW(1) << static_cast<unsigned>(b);
                     UW const v = x;
@@ -167,7 +186,10 @@ static Res eval1(std::string const& op, W a, bool has_b, W b)
             }
         }
         if (op == "ilog2") {
-            if (a < 1) return bad();
+            // x >= 1: floor(log2 x) = std::bit_width(x) - 1.  x <= 0 (zero and every negative value of a signed
+            // type): the logarithm does not exist and there is no std counterpart; tetl's documented behaviour
+            // (the loop `x > Int(1)` never runs; theorem ilog2_eq) is 0, restated here as the reference value.
+            if (a < 1) return mk(etl::ilog2(x), 0);
             return mk(etl::ilog2(x), std::bit_width(static_cast<unsigned long long>(a)) - 1);
         }
         if (op == "ipow2") {
@@ -178,11 +200,14 @@ static Res eval1(std::string const& op, W a, bool has_b, W b)
     }
     if (!fits<T>(b)) return bad();
     T const y = static_cast<T>(b);
-    if (op == "add_sat") return mk(etl::add_sat(x, y), clampT<T>(a + b));
-    if (op == "add_sat_fb") return mk(etl::detail::add_sat_fallback(x, y), clampT<T>(a + b));
-    if (op == "div_sat") {
-        if (b == 0) return bad();
-        return mk(etl::div_sat(x, y), clampT<T>(a / b));
+    if constexpr (!is_char_type<T>) {
+        if (op == "add_sat") return mk(etl::add_sat(x, y), clampT<T>(a + b));
+        // add_sat itself never dispatches to the fallback under GCC/clang (`#else` branch): called directly
+        if (op == "add_sat_fb") return mk(etl::detail::add_sat_fallback(x, y), clampT<T>(a + b));
+        if (op == "div_sat") {
+            if (b == 0) return bad();
+            return mk(etl::div_sat(x, y), clampT<T>(a / b));
+        }
     }
     if (op == "midpoint") return mk(etl::midpoint(x, y), std::midpoint(x, y));
     if (op == "idiv") {
@@ -226,6 +251,42 @@ static Res eval2(std::string const& op, W a, bool has_b, W b)
     return bad();
 }
 
+// gcd / lcm of two values of one character type (the mixed pairs are covered by the builtin types)
+template <typename T>
+static Res eval_gl(std::string const& op, W a, bool has_b, W b)
+{
+    if (!has_b || !fits<T>(a) || !fits<T>(b)) return bad();
+    T const x = static_cast<T>(a);
+    T const y = static_cast<T>(b);
+    if (op == "gcd") return mk(etl::gcd(x, y), std::gcd(x, y));
+    if (op == "lcm") return mk(etl::lcm(x, y), std::lcm(x, y));
+    return bad();
+}
+
+// midpoint(Ptr, Ptr): pointers into an exactly sized heap array (ASan red zones on both sides), result as index
+static Res eval_midptr(int* base, W n, W ia, W ib)
+{
+    if (ia < 0 || ia > n || ib < 0 || ib > n) return bad(); // not into the same array: never generated
+    int* const a       = base + static_cast<std::ptrdiff_t>(ia);
+    int* const b       = base + static_cast<std::ptrdiff_t>(ib);
+    int const* const c = b;
+    int* const r       = etl::midpoint(a, b);
+    int const* const q = etl::midpoint<int const*>(a, c);
+    if (q != r) return Res{"const-overload-differs", fmt_w(std::midpoint(a, b) - base), true};
+    return mk(r - base, std::midpoint(a, b) - base);
+}
+
+template <typename F>
+static bool with_char_type(std::string const& n, F f)
+{
+    if (n == "ch") { f(std::type_identity<char>{}); return true; }
+    if (n == "wch") { f(std::type_identity<wchar_t>{}); return true; }
+    if (n == "ch8") { f(std::type_identity<char8_t>{}); return true; }
+    if (n == "ch16") { f(std::type_identity<char16_t>{}); return true; }
+    if (n == "ch32") { f(std::type_identity<char32_t>{}); return true; }
+    return false;
+}
+
 template <typename F>
 static bool with_type(std::string const& n, F f)
 {
@@ -246,6 +307,15 @@ static Res eval(std::string const& op, std::string const& t, std::string const* 
 {
     Res r   = bad();
     bool ok = false;
+    static_assert(std::is_signed_v<char> && sizeof(wchar_t) == 4 && std::is_signed_v<wchar_t>,
+                  "the model maps char to signed 8 and wchar_t to signed 32 (x86-64 Linux)");
+    if (with_char_type(t, [&](auto tt) {
+            using T = typename decltype(tt)::type;
+            if (u == nullptr) r = eval1<T>(op, a, has_b, b);
+            else if (*u == t) r = eval_gl<T>(op, a, has_b, b);
+        })) {
+        return r;
+    }
     if (u != nullptr) {
         ok = with_type(t, [&](auto tt) {
             using T = typename decltype(tt)::type;
@@ -272,6 +342,28 @@ static std::string step(Line const& l)
     std::string ustr     = l.has("u") ? l.str("u") : std::string();
     std::string const* u = l.has("u") ? &ustr : nullptr;
     bool const has_a = l.has("a"), has_as = l.has("as"), has_b = l.has("b"), has_bs = l.has("bs");
+    if (l.op == "midpoint_ptr") {
+        if (t != "i64" || !l.has("n") || !has_a || has_as || (has_b == has_bs)) return badline;
+        W const n = parse_w(l.str("n"));
+        if (n < 0 || n > (W(1) << 24)) return badline;
+        proto::heap_buf<int> buf(static_cast<std::size_t>(n));
+        W const a = parse_w(l.str("a"));
+        if (has_b) {
+            Res r = eval_midptr(buf.p, n, a, parse_w(l.str("b")));
+            return r.ok ? r.impl + "\t" + r.ref : badline;
+        }
+        std::string impl = "[", ref = "[";
+        bool first = true;
+        for (W b : parse_list(l.str("bs"))) {
+            Res r = eval_midptr(buf.p, n, a, b);
+            if (!r.ok) return badline;
+            if (!first) { impl += ","; ref += ","; }
+            first = false;
+            impl += r.impl;
+            ref += r.ref;
+        }
+        return impl + "]\t" + ref + "]";
+    }
     if (has_a && !has_as && !has_bs) {
         Res r = eval(l.op, t, u, parse_w(l.str("a")), has_b, has_b ? parse_w(l.str("b")) : W(0));
         return r.ok ? r.impl + "\t" + r.ref : badline;
